@@ -36,8 +36,12 @@ structure IndexPack where
   size : Option Nat
   deriving DecidableEq, Repr, Inhabited
 
-/-- `IndexFile` (`supersedes` is "not actively used"). -/
+/-- `IndexFile`.  `supersedes` ("which other index files are superseded by this (not actively used)"): the optional
+list of index-file ids a file may carry (rustic never writes it; old restic versions / other tools do).  No definition
+of this model reads it — exactly like the code: `GlobalIndex::new_from_collector` hands `index.packs` of EVERY streamed
+file to the collector (`Props/C17.lean supersedes_is_ignored`). -/
 structure IndexFile where
+  supersedes : Option (List Nat) := none
   packs : List IndexPack
   packsToDelete : List IndexPack
   deriving Repr, Inhabited
